@@ -5,7 +5,7 @@
 //	                            guards of Token.Len and Token.String, the shape of ForEach;
 //	<repo>/tpl/cl/compile.go  : the `idents` map (grammar identifier -> token class).
 //
-// Writes  Generated/TplToken.lean   : one `abbrev` per token constant, `tokens : List String` (dense,
+// Writes  Generated/TplToken.lean   : one `abbrev` per token constant, `tokens : List (List UInt8)` (dense,
 //
 //	index = token value), `lenGuard`/`stringGuard : Nat → Bool`
 //	(the conditions exactly as written, `Token(len(tokens))` ->
@@ -361,13 +361,17 @@ func genTplToken(repo, out string) error {
 		}
 		fmt.Fprintf(&b, "abbrev %s : Nat := %d\n", c.name, c.val)
 	}
-	b.WriteString("\n/-- `tokens` (dense; index = token value; \"\" where the Go array has no entry). -/\ndef tokens : List String := [\n")
+	b.WriteString("\n/-- `tokens` (dense; index = token value; each spelling as bytes, [] where the Go array has no entry). -/\ndef tokens : List (List UInt8) := [\n")
 	for i := 0; i < size; i++ {
 		sep := ","
 		if i == size-1 {
 			sep = ""
 		}
-		fmt.Fprintf(&b, "  %s%s -- %d\n", strconv.Quote(table[i]), sep, i)
+		bs := make([]string, len(table[i]))
+		for j, c := range []byte(table[i]) {
+			bs[j] = strconv.Itoa(int(c))
+		}
+		fmt.Fprintf(&b, "  [%s]%s -- %d %s\n", strings.Join(bs, ", "), sep, i, table[i])
 	}
 	b.WriteString("]\n\n")
 	fmt.Fprintf(&b, "/-- Guard of `Token.Len` as written. -/\ndef lenGuard (tok : Nat) : Bool := %s\n\n", guards["Len"])
